@@ -12,6 +12,10 @@ use std::process::{Command, Stdio};
 use std::sync::{Arc, Mutex};
 use std::time::{Duration, Instant};
 
+thread_local! {
+    static FIRST_INDEX: std::cell::Cell<Option<u64>> = std::cell::Cell::new(None);
+}
+
 pub fn default_scratch_root() -> PathBuf {
     let base = if Path::new("/dev/shm").is_dir() {
         PathBuf::from("/dev/shm")
@@ -36,6 +40,7 @@ struct Collected {
     harness: Vec<String>,
     crashes: u64,
     hangs: u64,
+    foreign_crashes: u64,
     fingerprints: HashSet<u64>,
     states: HashSet<u64>,
 }
@@ -56,6 +61,8 @@ struct WorkerPlan {
     hang_s: u64,
     root: PathBuf,
     tag: String,
+    /// skip the runs below this index (to re-examine a range of a larger batch)
+    first_index: Option<u64>,
 }
 
 fn signal_of(status: &std::process::ExitStatus) -> Option<i32> {
@@ -68,7 +75,7 @@ fn manage_worker(plan: WorkerPlan, shared: Arc<Mutex<Collected>>) {
     let scratch = plan.root.join(format!("{}.d", plan.tag));
     let journal = plan.root.join(format!("{}.journal", plan.tag));
     let fp_out = plan.root.join(format!("{}.fp", plan.tag));
-    let mut resume_after: Option<u64> = None;
+    let mut resume_after: Option<u64> = plan.first_index.and_then(|f| f.checked_sub(1));
     let mut respawns = 0;
     loop {
         let mut cmd = Command::new(&plan.exe);
@@ -244,6 +251,20 @@ fn manage_worker(plan: WorkerPlan, shared: Arc<Mutex<Collected>>) {
                     )
                 };
                 let def = scen::for_prop(&plan.prop).unwrap();
+                let owner = (def.crash_owner)(&plan.prop, ops.last().unwrap_or(&Value::Null));
+                if owner != plan.prop {
+                    // governed by another property's statement (like a caught panic in the same place)
+                    let mut c = shared.lock().unwrap();
+                    c.foreign_crashes += 1;
+                    drop(c);
+                    resume_after = Some(run_index);
+                    respawns += 1;
+                    if respawns > 200 {
+                        shared.lock().unwrap().harness.push(format!("worker {} respawned too often", plan.tag));
+                        break;
+                    }
+                    continue;
+                }
                 let t = Trace {
                     scenario: def.name.to_string(),
                     property: plan.prop.clone(),
@@ -325,6 +346,7 @@ fn run_fleet(
             hang_s,
             root: root.to_path_buf(),
             tag: format!("w{}", k),
+            first_index: FIRST_INDEX.with(|f| f.get()),
         };
         let sh = main.clone();
         handles.push(std::thread::spawn(move || manage_worker(plan, sh)));
@@ -345,6 +367,7 @@ fn run_fleet(
             hang_s,
             root: root.to_path_buf(),
             tag: "resample".to_string(),
+            first_index: FIRST_INDEX.with(|f| f.get()),
         };
         let sh = sample.clone();
         handles.push(std::thread::spawn(move || manage_worker(plan, sh)));
@@ -648,6 +671,9 @@ pub fn cmd_supervise(a: &Args) -> i32 {
         None => (def.budget)(&prop, tier),
     };
     let hang_s = a.num("hang-s", 60);
+    if let Some(f) = a.get("from").and_then(|s| s.parse::<u64>().ok()) {
+        FIRST_INDEX.with(|c| c.set(Some(f)));
+    }
     let deadline_s = a.num("deadline-s", if tier == Tier::Quick { 240 } else { 3600 });
     let min_budget = a.num("minimise-s", 120);
     let out_path = a.get("out").map(PathBuf::from);
@@ -827,6 +853,7 @@ pub fn cmd_supervise(a: &Args) -> i32 {
         "violations": reported,
         "known_findings_seen": known_seen.iter().map(|(k, (l, n))| json!({"key": k, "line": l, "runs": n})).collect::<Vec<_>>(),
         "worker_crashes": main.crashes,
+        "foreign_worker_crashes": main.foreign_crashes,
         "worker_hangs": main.hangs,
         "determinism": {"reexecuted": det_compared, "mismatches": det_mismatch.len()},
         "harness_errors": harness,
